@@ -592,7 +592,8 @@ def run_unit(prop_id, unit, tier, seed=0):
                 continue
             # pinned symbolic run
             eng = core.Engine(feas_timeout_ms=unit.feas_ms, max_paths=50, wall_s=60, seed=seed)
-            eng.opts = unit.opts
+            eng.opts = dict(unit.opts)
+            eng.opts["approx_sqrt"] = True
             pins = dict(cctx.values)
 
             def pinned_body():
